@@ -18,6 +18,6 @@ package freeze
 //@   ensures [C19] refuses-during-a-canary: forall k int :: lognew(k) && logverb(k) == "Patch" ==> cast(logobj(k-1), "*v1.ExtendedDaemonSet").Status.Canary == nil
 //@   ensures [C19] patches-the-fetched-object: forall k int :: lognew(k) && logverb(k) == "Patch" ==> cast(logsent(k), "*v1.ExtendedDaemonSet").ObjectMeta.Name == cast(logobj(k-1), "*v1.ExtendedDaemonSet").ObjectMeta.Name && cast(logsent(k), "*v1.ExtendedDaemonSet").ObjectMeta.Namespace == cast(logobj(k-1), "*v1.ExtendedDaemonSet").ObjectMeta.Namespace
 //@   ensures [C19] labels-untouched: forall k int :: lognew(k) && logverb(k) == "Patch" ==> forall a string :: ((a in cast(logsent(k), "*v1.ExtendedDaemonSet").ObjectMeta.Labels) <==> (a in cast(logobj(k-1), "*v1.ExtendedDaemonSet").ObjectMeta.Labels)) && cast(logsent(k), "*v1.ExtendedDaemonSet").ObjectMeta.Labels[a] == cast(logobj(k-1), "*v1.ExtendedDaemonSet").ObjectMeta.Labels[a]
-//@   ensures [C19] changes-only-the-rollout-frozen-annotation: forall k int :: lognew(k) && logverb(k) == "Patch" ==> scalareq(*cast(logsent(k), "*v1.ExtendedDaemonSet"), *cast(logobj(k-1), "*v1.ExtendedDaemonSet")) && (forall a string :: a != "extendeddaemonset.datadoghq.com/rollout-frozen" ==> ((a in cast(logsent(k), "*v1.ExtendedDaemonSet").ObjectMeta.Annotations) <==> (a in cast(logobj(k-1), "*v1.ExtendedDaemonSet").ObjectMeta.Annotations)) && cast(logsent(k), "*v1.ExtendedDaemonSet").ObjectMeta.Annotations[a] == cast(logobj(k-1), "*v1.ExtendedDaemonSet").ObjectMeta.Annotations[a])
+//@   ensures [C19] changes-only-the-rollout-frozen-annotation: forall k int :: lognew(k) && logverb(k) == "Patch" ==> scalareq(*cast(logsent(k), "*v1.ExtendedDaemonSet"), *cast(logobj(k-1), "*v1.ExtendedDaemonSet")) && shapeeq(cast(logsent(k), "*v1.ExtendedDaemonSet").Spec, cast(logobj(k-1), "*v1.ExtendedDaemonSet").Spec) && shapeeq(cast(logsent(k), "*v1.ExtendedDaemonSet").Status, cast(logobj(k-1), "*v1.ExtendedDaemonSet").Status) && (forall a string :: a != "extendeddaemonset.datadoghq.com/rollout-frozen" ==> ((a in cast(logsent(k), "*v1.ExtendedDaemonSet").ObjectMeta.Annotations) <==> (a in cast(logobj(k-1), "*v1.ExtendedDaemonSet").ObjectMeta.Annotations)) && cast(logsent(k), "*v1.ExtendedDaemonSet").ObjectMeta.Annotations[a] == cast(logobj(k-1), "*v1.ExtendedDaemonSet").ObjectMeta.Annotations[a])
 //@   ensures [C19] sets-the-annotation-as-asked: forall k int :: lognew(k) && logverb(k) == "Patch" ==> (o.want == "frozen" ==> cast(logsent(k), "*v1.ExtendedDaemonSet").ObjectMeta.Annotations["extendeddaemonset.datadoghq.com/rollout-frozen"] == "true") && (o.want == "unfrozen" ==> cast(logsent(k), "*v1.ExtendedDaemonSet").ObjectMeta.Annotations["extendeddaemonset.datadoghq.com/rollout-frozen"] == "false")
 //@   ensures [C19] refuses-when-already-in-the-asked-state: forall k int :: lognew(k) && logverb(k) == "Patch" ==> !(o.want == "frozen" && cast(logobj(k-1), "*v1.ExtendedDaemonSet").ObjectMeta.Annotations["extendeddaemonset.datadoghq.com/rollout-frozen"] == "true") && !(o.want == "unfrozen" && (!("extendeddaemonset.datadoghq.com/rollout-frozen" in cast(logobj(k-1), "*v1.ExtendedDaemonSet").ObjectMeta.Annotations) || cast(logobj(k-1), "*v1.ExtendedDaemonSet").ObjectMeta.Annotations["extendeddaemonset.datadoghq.com/rollout-frozen"] == "false"))
